@@ -197,6 +197,7 @@ type Outcome struct {
 	ExprType     parser.ValueType  `json:"-"`
 	Q            promql.Query      `json:"-"`
 	AliveAtClose []string          `json:"alive_at_close,omitempty"`
+	CtxDoneAtEnd bool              `json:"ctx_done_at_end,omitempty"`
 }
 
 func (o *Outcome) Failed() bool { return !o.Created || o.Err != "" || o.ClientPanic != "" }
@@ -245,12 +246,12 @@ func classifyErr(o *Outcome, err error, delivered []string) {
 
 // QueryRun describes how one query is driven.
 type QueryRun struct {
-	Op      Op
-	Eng     *Engine
-	Store   storage.Queryable
-	Sim     *sched.Sim   // may be nil (free-running)
-	Acct    *store.Store // instrumented store to account on (nil for distributed-only)
-	NoClose bool
+	Op       Op
+	Eng      *Engine
+	Store    storage.Queryable
+	Sim      *sched.Sim   // may be nil (free-running)
+	Acct     *store.Store // instrumented store to account on (nil for distributed-only)
+	NoClose  bool
 	Contract bool
 }
 
@@ -343,9 +344,19 @@ func RunQuery(r QueryRun) (o *Outcome) {
 	} else {
 		close(clientDone)
 	}
+	stopAF := context.AfterFunc(ctx, func() {
+		if o.CancelStep == 0 && o.ExecEnd == 0 {
+			o.CancelStep = step()
+			if o.CancelStep == 0 {
+				o.CancelStep = -1
+			}
+		}
+	})
 	o.ExecStart = step()
 	res := q.Exec(ctx)
 	o.ExecEnd = step()
+	o.CtxDoneAtEnd = ctx.Err() != nil
+	stopAF()
 	if o.ExecEnd == 0 {
 		o.ExecEnd = -1
 	}
@@ -393,6 +404,12 @@ func trimStack(b []byte) string {
 
 // RefQuery evaluates the operation on the pinned Prometheus engine over a plain view of the data.
 func RefQuery(op Op, data []store.Series, lookbackMs int64) *Outcome {
+	return RefQueryPerm(op, data, lookbackMs, 0)
+}
+
+// RefQueryPerm: the reference engine over a storage that returns series in a seeded permutation
+// (perm != 0); used to find out whether the reference's own answer depends on input order.
+func RefQueryPerm(op Op, data []store.Series, lookbackMs int64, perm int64) *Outcome {
 	o := &Outcome{}
 	defer func() {
 		if p := recover(); p != nil {
@@ -400,7 +417,7 @@ func RefQuery(op Op, data []store.Series, lookbackMs int64) *Outcome {
 		}
 	}()
 	ng := promql.NewEngine(promOpts(lookbackMs, nil))
-	st := store.New(data, store.Cfg{}, true)
+	st := store.New(data, store.Cfg{PermSeed: perm}, true)
 	var qopts *promql.QueryOpts
 	if op.QLookbackMs > 0 {
 		qopts = &promql.QueryOpts{LookbackDelta: time.Duration(op.QLookbackMs) * time.Millisecond}
